@@ -130,4 +130,24 @@ def methodCollisions (svcNames : List String) (sigFields : List Path) : List Str
 /-- `Address.module_alias` is non-empty iff `self.module in self.collisions or self.module in RESERVED_NAMES` -/
 def isAliased (collisions : List String) (module : String) : Bool := collisions.contains module || isReserved module
 
+/-! ### `Service.names`: which module names collide (proto modules AND the wrapper modules the service code imports) -/
+
+/-- a referenced type's home: (module, package). `Method.ref_types` holds the proto types (request, response, fields, LRO response/metadata,
+page items) and the WRAPPER python types of `client_output(_async)`: `google.api_core`.`operation` / `operation_async` for an LRO,
+`google.api_core`.`extended_operation`, `<package>.services.<service>`.`pagers` for a paginated method -/
+abbrev Ref := String × String
+
+/-- the wrapper python types one method adds to its `ref_types` -/
+def wrapperRefs (isLro isExtendedLro isPaged : Bool) (servicePackage : String) : List Ref :=
+  (if isLro then [("operation", "google.api_core"), ("operation_async", "google.api_core")] else []) ++
+  (if isExtendedLro then [("extended_operation", "google.api_core")] else []) ++
+  (if isPaged then [("pagers", servicePackage)] else [])
+
+/-- module names used from more than one package (`len(packages) > 1`); duplicates are harmless (the code builds a set) -/
+def collidingModules (refs : List Ref) : List String :=
+  refs.filterMap fun r => if refs.any (fun r' => r'.1 == r.1 && r'.2 != r.2) then some r.1 else none
+
+/-- `Service.names`: the service and client names, the snake-cased method names, the colliding module names -/
+def serviceNames (own methods : List String) (refs : List Ref) : List String := own ++ methods ++ collidingModules refs
+
 end GapicModel.Model.Names
